@@ -398,6 +398,8 @@ class ExprGen:
         k = r.random()
         if depth <= 0 or k < 0.3:
             return self.atom()
+        if not self.lowered and r.random() < 0.12:
+            return self.complex_slice(depth)
         if k < 0.5:
             return _Operator(r.choice(BITW), [self.word(depth - 1), self.word(depth - 1)])
         if k < 0.6:
@@ -431,6 +433,8 @@ class ExprGen:
         r = self.rng
         if depth <= 0 or r.random() < 0.15:
             return self.leaf()
+        if not self.lowered and r.random() < 0.08:
+            return self.complex_slice(depth)
         k = r.random()
         if k < 0.25:
             e = _Operator(r.choice(ARITH), [self.gen_wild(depth - 1), self.gen_wild(depth - 1)])
@@ -457,6 +461,27 @@ class ExprGen:
             e = Replicate(self.gen_wild(depth - 1), r.randint(1, 3))
         if len(e) > self.maxw:
             return self.leaf()
+        return e
+
+    def complex_slice(self, depth):
+        """Slices that `_ComplexSliceLowerer` has to resolve: into a Cat element, into one copy of a Replicate,
+        nested slices, slices of operator results (proxy signal)."""
+        r = self.rng
+        sub = self.word if self.tame else self.gen_wild
+        k = r.random()
+        if k < 0.4:
+            base = Cat(*[sub(depth - 1) for _ in range(r.randint(2, 3))])
+        elif k < 0.6:
+            base = Replicate(sub(depth - 1), r.randint(2, 3))
+        elif k < 0.8:
+            base = self.slice_of(r.choice(self.sigs))
+        else:
+            base = sub(depth - 1)
+        if len(base) == 0 or len(base) > self.maxw:
+            return self.leaf()
+        e = self.slice_of(base)
+        if r.random() < 0.3:
+            e = self.slice_of(e)
         return e
 
     def small_unsigned(self):
@@ -1248,10 +1273,31 @@ class SafeGen:
     oracle.  A mismatch between the real Evaluator and the golden reading of the real text on such an
     expression is a genuine failing input."""
 
-    def __init__(self, rng, usigs, ssigs):
+    def __init__(self, rng, usigs, ssigs, complex_slices=False):
         self.rng = rng
         self.u = usigs
         self.s = ssigs
+        self.cs = complex_slices
+
+    def cslice(self, d):
+        r = self.rng
+        k = r.random()
+        if k < 0.45:
+            base = Cat(*[self.word(d - 1) for _ in range(r.randint(2, 3))])
+        elif k < 0.7:
+            base = Replicate(self.word(d - 1), r.randint(2, 3))
+        else:
+            base = self.word(d - 1)
+        n = len(base)
+        if n == 0 or n > 40:
+            return self.atom()
+        lo = r.randrange(0, n)
+        e = _Slice(base, lo, r.randint(lo + 1, n))
+        if r.random() < 0.3:
+            n = len(e)
+            lo = r.randrange(0, n)
+            e = _Slice(e, lo, r.randint(lo + 1, n))
+        return e
 
     def atom(self):
         r = self.rng
@@ -1269,25 +1315,31 @@ class SafeGen:
             return self.rng.choice(self.s)
         return self.atom()
 
-    def boolean(self, d):
+    def boolean(self, d, signed_ok=False):
+        """0/1-valued.  Comparisons with a signed operand are reported signed by the printer (known defect:
+        the Verilog result is unsigned), which makes it promote — and widen — a neighbouring operand; such
+        comparisons are therefore only generated where the width does not matter (conditions, top level)."""
         r = self.rng
         k = r.random()
         if d <= 0 or k < 0.45:
-            return _Operator(r.choice(CMP), [self.anyatom(), self.anyatom()])
+            at = self.anyatom if signed_ok else self.atom
+            return _Operator(r.choice(CMP), [at(), at()])
         if k < 0.6:
             s = r.choice(self.u)
             return _Slice(s, 0, 1) if s.nbits > 1 else s
-        return _Operator(r.choice(BITW), [self.boolean(d - 1), self.boolean(d - 1)])
+        return _Operator(r.choice(BITW), [self.boolean(d - 1, signed_ok), self.boolean(d - 1, signed_ok)])
 
     def word(self, d):
         r = self.rng
         k = r.random()
         if d <= 0 or k < 0.3:
             return self.atom()
+        if self.cs and r.random() < 0.15:
+            return self.cslice(d)
         if k < 0.5:
             return _Operator(r.choice(BITW), [self.word(d - 1), self.word(d - 1)])
         if k < 0.62:
-            return Mux(self.boolean(d - 1), self.word(d - 1), self.word(d - 1))
+            return Mux(self.boolean(d - 1, True), self.word(d - 1), self.word(d - 1))
         if k < 0.78:
             return Cat(*[self.word(d - 1) for _ in range(r.randint(1, 3))])
         if k < 0.84:
@@ -1304,7 +1356,7 @@ class SafeGen:
         if k < 0.4 and self.s:
             return _Operator(r.choice(ARITH + BITW), [r.choice(self.s), self.anyatom()])
         if k < 0.5 and self.s:
-            return Mux(self.boolean(d - 1), r.choice(self.s), self.anyatom())
+            return Mux(self.boolean(d - 1, True), r.choice(self.s), self.anyatom())
         if k < 0.58:
             return _Operator("<<<", [self.word(d - 1), Constant(r.randint(0, 3))])
         if k < 0.65:
@@ -1312,7 +1364,7 @@ class SafeGen:
         if k < 0.72 and self.s:
             return _Operator("-", [r.choice(self.s)])
         if k < 0.85:
-            return self.boolean(d)
+            return self.boolean(d, True)
         return self.word(d)
 
 
